@@ -381,7 +381,22 @@ func init() {
 						continue
 					}
 					ia, ok := st.Addr.(*ssa.IndexAddr)
-					if !ok || ia.X != ssa.Value(fn.Params[1]) {
+					if !ok {
+						continue
+					}
+					// the per-document table of term bytes: a [][]byte parameter, or a [][]byte field of
+					// a state struct the function is handed
+					isTable := len(fn.Params) > 1 && ia.X == ssa.Value(fn.Params[1])
+					if !isTable && ia.X.Type().String() == "[][]byte" {
+						switch tx := ia.X.(type) {
+						case *ssa.Parameter:
+							isTable = true
+						case *ssa.UnOp:
+							_, isField := tx.X.(*ssa.FieldAddr)
+							isTable = tx.Op == token.MUL && isField
+						}
+					}
+					if !isTable {
 						continue
 					}
 					outer, ok := st.Val.(*ssa.Call)
